@@ -79,7 +79,7 @@ pub fn shuffle_game(rng: &mut StdRng) -> Option<ShuffleGame> {
     for _ in 0..200 {
         let strong_white = rng.gen_bool(0.5);
         let s: i8 = if strong_white { 1 } else { -1 };
-        let mut p = Pos { b: [0; 64], wtm: rng.gen_bool(0.5), castle: [false; 4], ep: None, half: rng.gen_range(0..30), full: *[1u32, 2, 40, 2499, 2500, 2600, 29000].choose(rng).unwrap() };
+        let mut p = Pos { b: [0; 64], wtm: rng.gen_bool(0.5), castle: [false; 4], ep: None, half: rng.gen_range(0..30), full: *[1u32, 2, 40, 2499, 2500, 2600, 29000, 32740, 32760, 32766, 32767, 32768, 32769, 40000, 65530, 65536, 99000].choose(rng).unwrap() };
         let place = |p: &mut Pos, pc: i8, rng: &mut StdRng| -> Option<u8> { for _ in 0..50 { let c = rng.gen_range(0..64u8); if p.b[c as usize] == 0 && !(pc.abs() == P && (rank_of(c) == 0 || rank_of(c) == 7)) { p.b[c as usize] = pc; return Some(c); } } None };
         place(&mut p, s * K, rng)?;
         place(&mut p, -s * K, rng)?;
@@ -145,7 +145,8 @@ pub fn layer1_real(g: &ShuffleGame, rep: &mut Report) {
         let mut out = Vec::new();
         for (j, q) in g.positions.iter().enumerate() {
             let bb = Bitboard::from_fen_string(&q.to_fen()).map_err(|e| format!("{:?}", e))?;
-            let ply = (2 * (q.full - 1) + if q.wtm { 0 } else { 1 }) as u16;
+            // the slot the engine itself uses for this position
+            let ply = bb.ply_clock();
             hh.set(ply, bb.calculate_zobrist_hash());
             out.push((j, hh.count_repetitions(ply, q.half.min(65535) as u16)));
         }
